@@ -35,7 +35,7 @@ pub enum HOp {
     GetParam { b: usize, name: &'static str },
 }
 
-const SOURCES: [&str; 20] = [
+const SOURCES: [&str; 22] = [
     "1",
     "x",
     "b + 1",
@@ -56,12 +56,16 @@ const SOURCES: [&str; 20] = [
     "x.sort()",
     "coalesce(x, 5)",
     "{'p': 1, 'q': x, 'r': 3, 's': 4, 't': 5}.filter(k, k != 'q')",
+    // a map comparison with one failing entry among several unequal ones: the answer must not depend on the order
+    // in which a HashMap happens to be walked (folded at compile time / evaluated at run time)
+    "{'a': [1][5], 'b': 1, 'c': 2, 'd': 3, 'e': 4, 'f': 5} == {'a': 0, 'b': 9, 'c': 9, 'd': 9, 'e': 9, 'f': 9}",
+    "{'a': m.zz, 'b': x, 'c': 2, 'd': 3, 'e': 4, 'f': 5} == {'a': 0, 'b': 9, 'c': 9, 'd': 9, 'e': 9, 'f': 9}",
 ];
 const PROG_NAMES: [&str; 3] = ["a", "b", "x"];
 const PARAM_NAMES: [&str; 3] = ["x", "m", "b"];
 const FN_NAMES: [&str; 2] = ["tick", "size"];
 const ALL_NAMES: [&str; 6] = ["a", "b", "x", "m", "tick", "zz"];
-const NVALS: usize = 9;
+const NVALS: usize = 10;
 
 /// Values are rebuilt from scratch at every use: each `HashMap` is a new instance with its own hash seed.
 fn mk_value(id: usize) -> CelValue {
@@ -86,6 +90,14 @@ fn mk_value(id: usize) -> CelValue {
         }
         6 => CelValue::Null,
         7 => CelValue::UInt(7),
+        8 => {
+            // keys that differ only in letter case: one fixed iteration order must not rely on a case-folded key
+            let mut m = HashMap::new();
+            for (i, k) in ["id", "ID", "Id", "iD", "name", "Name", "NAME"].iter().enumerate() {
+                m.insert(k.to_string(), CelValue::Int(i as i64));
+            }
+            CelValue::Map(m)
+        }
         _ => CelValue::Bool(true),
     }
 }
@@ -392,7 +404,7 @@ fn random_history(rng: &mut Rng, len: usize, nctx: usize, nbinds: usize) -> Vec<
         out.push(match rng.below(20) {
             0..=4 => HOp::AddSrc { c, name: PROG_NAMES[rng.below(3)], src: SOURCES[rng.below(SOURCES.len())] },
             5 => HOp::AddProg { c, name: PROG_NAMES[rng.below(3)], src: SOURCES[rng.below(SOURCES.len())] },
-            6..=9 => HOp::Bind { b, name: PARAM_NAMES[rng.below(3)], val: if rng.chance(1, 2) { 4 + rng.below(2) } else { rng.below(NVALS) } },
+            6..=9 => HOp::Bind { b, name: PARAM_NAMES[rng.below(3)], val: if rng.chance(1, 2) { [4, 5, 8][rng.below(3)] } else { rng.below(NVALS) } },
             10 => HOp::BindFn { b, name: FN_NAMES[rng.below(2)], f: rng.below(3) },
             11 => {
                 if nc < 5 {
@@ -514,8 +526,8 @@ fn scenario_observations(seed: u64) -> Vec<String> {
     for i in 0..12 {
         let mut ops = random_history(&mut rng, 10 + 2 * i, 2, 2);
         // make sure map iteration is part of every scenario
-        ops.insert(0, HOp::Bind { b: 0, name: "m", val: 4 + i % 2 });
-        ops.insert(1, HOp::AddSrc { c: 0, name: "a", src: SOURCES[[4, 5, 10, 12, 14, 15, 19][i % 7]] });
+        ops.insert(0, HOp::Bind { b: 0, name: "m", val: [4, 5, 8][i % 3] });
+        ops.insert(1, HOp::AddSrc { c: 0, name: "a", src: SOURCES[[4, 5, 10, 12, 14, 15, 19, 20, 21][i % 9]] });
         ops.push(HOp::Exec { c: 0, name: "a", b: 0 });
         let probes = final_probes(&ops, 2, 2);
         ops.extend(probes);
@@ -530,7 +542,7 @@ pub fn run(opts: &Opts) -> Report {
         "C11",
         "API histories on 2 contexts x 2 bind sets (+ clones): all sequences of length <= 3 (quick) / 4 (thorough) over a 16-symbol alphabet \
          {add/replace (valid, failing, referencing, map-iterating), prebuilt program, bind/rebind (int, 6-key map), bind function, clone context, clone bindings, exec}, \
-         random histories of length <= 40 over 20 program texts (map-iterating macros over bound and literal maps, program references, f-strings, sort, reduce, has/coalesce, user functions) x 9 values; \
+         random histories of length <= 40 over 22 program texts (map-iterating macros over bound and literal maps, map comparisons with a failing entry, program references, f-strings, sort, reduce, has/coalesce, user functions) x 10 values (incl. a map whose keys differ only in letter case); \
          after each history every (context, program, bind set) is executed 3x, on clones taken before/after, on original/clone mixes and in a fresh context built from the latest definitions only; \
          snapshots of programs and bindings before/after must be equal; evaluations = API executions; non-trivial = distinct history",
     );
